@@ -164,6 +164,12 @@ func (c *Ctx) Section(name string, n int64, f func(i int64, r *gen.Rand)) {
 	}
 }
 
+// Setup runs a preparation step of a property that already calls the library (every process runs it, replays too). It
+// is journalled and recovered like a case, so that a library panic in it is a violation and not a dead worker.
+func (c *Ctx) Setup(name string, f func()) {
+	c.runCase(name, 0, func(int64, *gen.Rand) { f() })
+}
+
 // SectionFirst is for workloads that depend on what the process did FIRST with the library (lazily built tables,
 // first user of a pool): it must be called at the very start of a property, before anything else touches the library.
 // Batch b runs variant b (if b < n) and nothing else of the section, so that every variant gets a process of its
